@@ -8,14 +8,21 @@
                   exactly the lanes designated to it, an undesignated cell none); the reference scatter semantics
                   satisfies the acceptance predicate CellOk of the trace specification and changes nothing outside
                   the write footprint.
+   inplace phase: a call whose result IS operand a (contiguous, strides {1,2,3}, permuted index lists), operand b a separate
+                  array or a broadcast element that lives inside that same array: the reference execution (lanes in
+                  ascending order, each reading the current memory, the broadcast element copied at entry) leaves
+                  Expected(op, a_k, b_k) of the PRE-call values in every result cell, nothing else changes, and the changed
+                  cells are the ones ChangedCells predicts; re-reading the broadcast element through a reference is shown
+                  to differ (the alias modes of the conformance step are not vacuous).
    par phase:     parcpy / parSetZero chunk arithmetic, sizes 0..12 x thread arguments -2..14.
    table:         every row of Overloads17 is well-formed. *)
 EXTENDS Layout, Overloads17, ParChunks
-VARIABLES ph, od, cc, pc
+VARIABLES ph, od, cc, pc, ip
 
 NoOp == [d |-> Desc("none", "", FALSE), n |-> 4, s |-> 0, idx |-> <<>>]
 NoCall == [op |-> "copy", n |-> 4, a |-> NoOp, b |-> NoOp, c |-> NoOp]
 NoPar == [size |-> 0, t |-> 0]
+NoIp == [op |-> "add", n |-> 4, o |-> NoOp, bk |-> "array", aj |-> 0]
 Strides == {0, 1, 2, 3, 5}
 Idx8 == {<<0,1,2,3,4,5,6,7>>, <<7,6,5,4,3,2,1,0>>, <<3,3,3,3,3,3,3,3>>, <<0,2,4,6,8,10,12,14>>, <<5,0,5,1,9,9,2,0>>, <<1,0,3,2,5,4,7,6>>}
 IdxIn(n) == IF n = 4 THEN {<<0,1,2,3>>, <<3,1,0,2>>, <<2,2,0,5>>, <<4,4,4,4>>} ELSE {<<7,6,5,4,3,2,1,0>>, <<5,0,5,1,9,9,2,0>>}
@@ -27,19 +34,23 @@ OperandCfgs(kind, n, strides, idxs) ==
     [] kind = "scalar" -> {[d |-> Desc("scalar", "", br), n |-> n, s |-> 0, idx |-> <<>>] : br \in BOOLEAN}
     [] OTHER           -> {[d |-> Desc(kind, "", FALSE), n |-> n, s |-> 0, idx |-> <<>>]}
 
-Init == ph = "start" /\ od = NoOp /\ cc = NoCall /\ pc = NoPar
-ChooseOperand == /\ ph = "start" /\ ph' = "operand" /\ UNCHANGED <<cc, pc>>
+Init == ph = "start" /\ od = NoOp /\ cc = NoCall /\ pc = NoPar /\ ip = NoIp
+ChooseOperand == /\ ph = "start" /\ ph' = "operand" /\ UNCHANGED <<cc, pc, ip>>
                  /\ \E n \in {4, 8}, kind \in InKinds :
                       od' \in OperandCfgs(kind, n, Strides, IF n = 4 THEN [1..4 -> 0..5] ELSE Idx8)
-ChooseCall == /\ ph = "start" /\ ph' = "call" /\ UNCHANGED <<od, pc>>
+ChooseCall == /\ ph = "start" /\ ph' = "call" /\ UNCHANGED <<od, pc, ip>>
               /\ \E n \in {4, 8}, op \in Ops, ka \in InKinds, kb \in InKinds \cup {"none"}, kc \in OutKinds :
                    /\ (op = "copy") = (kb = "none")
                    /\ \E a \in OperandCfgs(ka, n, {0, 2, 3}, IdxIn(n)), b \in OperandCfgs(kb, n, {0, 3}, IdxIn(n)),
                          c \in OperandCfgs(kc, n, {0, 1, 3}, IdxOut(n)) :
                         cc' = [op |-> op, n |-> n, a |-> a, b |-> b, c |-> c]
-ChoosePar == /\ ph = "start" /\ ph' = "par" /\ UNCHANGED <<od, cc>>
+ChoosePar == /\ ph = "start" /\ ph' = "par" /\ UNCHANGED <<od, cc, ip>>
              /\ \E size \in 0..12, t \in (-2)..14 : pc' = [size |-> size, t |-> t]
-Next == ChooseOperand \/ ChooseCall \/ ChoosePar
+ChooseInPlace == /\ ph = "start" /\ ph' = "inplace" /\ UNCHANGED <<od, cc, pc>>
+                 /\ \E n \in {4, 8}, op \in {"add", "sub", "mul"}, kind \in MemKinds, bk \in {"array", "scalar"}, aj \in 0..7 :
+                      /\ aj < n /\ (bk = "array" => aj = 0)
+                      /\ \E o \in OperandCfgs(kind, n, {1, 2, 3}, IdxOut(n)) : ip' = [op |-> op, n |-> n, o |-> o, bk |-> bk, aj |-> aj]
+Next == ChooseOperand \/ ChooseCall \/ ChoosePar \/ ChooseInPlace
 
 TableOk == ph = "start" => \A id \in Ov17Ids : WellFormedRow(Ov17[id]) /\ Ov17[id].id = id
 
@@ -83,6 +94,35 @@ CallInv ==
             /\ Fc \subseteq DOMAIN mc
             /\ \A x \in Fc : CellOk(cc.op, cc.c.d, n, cc.c.s, cc.c.idx, x, After[x], av, bv)
             /\ {x \in DOMAIN mc : After[x] # mc[x]} \subseteq Fc)
+
+(* reference execution of v = op(v, b) in place, lanes ascending, every lane reading the current memory; the broadcast
+   element is cell sx of the same array: copied at entry (by value) or re-read through a reference (byref) *)
+RECURSIVE SeqRun(_, _, _, _, _, _)
+SeqRun(c, mem0, bm, sx, byref, st) ==
+  IF st[1] = c.n THEN st[2]
+  ELSE LET k == st[1]  mem == st[2]
+           x == Addr(c.o.d, k, c.o.s, c.o.idx)
+           bw == IF c.bk = "scalar" THEN (IF byref THEN mem[sx] ELSE mem0[sx]) ELSE bm[k]
+       IN SeqRun(c, mem0, bm, sx, byref, <<k + 1, [mem EXCEPT ![x] = Expected(c.op, mem[x], bw)]>>)
+InPlaceInv ==
+  ph = "inplace" =>
+    LET n == ip.n  o == ip.o
+        mem0 == Fill(o, n, 7)
+        bm == [k \in Lanes(n) |-> OfInt(1 + ((11 * (k + 1)) % 199))]
+        sx == Addr(o.d, ip.aj, o.s, o.idx)
+        F == Footprint(o.d, n, o.s, o.idx)
+        fin == SeqRun(ip, mem0, bm, sx, FALSE, <<0, mem0>>)
+        av == [k \in 1..n |-> mem0[Addr(o.d, k - 1, o.s, o.idx)]]
+        bv == [k \in 1..n |-> IF ip.bk = "scalar" THEN mem0[sx] ELSE bm[k - 1]]
+        rv == [k \in 1..n |-> fin[Addr(o.d, k - 1, o.s, o.idx)]]
+    IN /\ Injective(o.d, n, o.s, o.idx)
+       /\ \A k \in Lanes(n) : ResultOk(ip.op, rv[k + 1], av[k + 1], bv[k + 1])          \* Expected on the pre-call values
+       /\ \A x \in DOMAIN mem0 \ F : fin[x] = mem0[x]
+       /\ {x \in DOMAIN mem0 : fin[x] # mem0[x]} = ChangedCells(o.d, n, o.s, o.idx, rv, av)
+(* not vacuous: if the broadcast element inside the result array were re-read through a reference, later lanes would differ *)
+ASSUME LET c == [op |-> "add", n |-> 4, o |-> [d |-> Desc("contig", "", FALSE), n |-> 4, s |-> 0, idx |-> <<>>], bk |-> "scalar", aj |-> 0]
+           m0 == Fill(c.o, 4, 7)  bm == [k \in Lanes(4) |-> One8]
+       IN SeqRun(c, m0, bm, 0, TRUE, <<0, m0>>) # SeqRun(c, m0, bm, 0, FALSE, <<0, m0>>)
 
 ParInv == ph = "par" => ParOk(pc.size, pc.t)
 (* the cover invariant is not vacuous: without shortening the last chunk some configuration overruns *)
